@@ -550,6 +550,30 @@ impl UserValidationMethod for ScriptedUv {
     }
 }
 
+/// Runs `hook` while the user step is pending (the world changes during the prompt), then asks
+/// the wrapped method.
+#[derive(Clone)]
+pub struct HookUv<U> {
+    pub inner: U,
+    pub hook: Option<Arc<dyn Fn() + Send + Sync>>,
+}
+#[async_trait::async_trait]
+impl<U: UserValidationMethod<PasskeyItem = Passkey> + Send + Sync> UserValidationMethod for HookUv<U> {
+    type PasskeyItem = Passkey;
+    async fn check_user<'a>(&self, credential: Option<&'a Passkey>, presence: bool, verification: bool) -> Result<UserCheck, Ctap2Error> {
+        if let Some(h) = &self.hook {
+            h();
+        }
+        self.inner.check_user(credential, presence, verification).await
+    }
+    fn is_presence_enabled(&self) -> bool {
+        self.inner.is_presence_enabled()
+    }
+    fn is_verification_enabled(&self) -> Option<bool> {
+        self.inner.is_verification_enabled()
+    }
+}
+
 /// "Honest" user: reports exactly what is asked of it when `verify`/`present` allow.
 #[derive(Clone)]
 pub struct EchoUv {
